@@ -12,7 +12,7 @@ CLAIMS = {
     'C04': 'PARTIAL -- buffered mode only: a direction finishes Ok only at end of stream with everything delivered, end of stream is passed on (shutdown of the write side) after the data and nothing is written after it; copy_bidi reports the tunnel finished only after both directions ended, recording ClientShutdown and ServerShutdown, while an unfinished direction keeps being polled. NOT decided: "identically in both I/O modes" (splice path), FIN/RST on real sockets, promptness',
     'C02': 'the dispatcher opens an upstream iff the first-match result is an allowing rule whose connector has the feature (all symbolic outcome combinations of one request), Rule::evaluate\'s verdict mapping, the first-match closure, and cidr_match feeding the cidr crate exactly the parsed address',
     'C03': 'composition round trips (decoder run on the encoder\'s output inside one query) for the RPFM address attribute, SOCKS5-UDP header and SOCKS4/4a/5 request writer->reader, over all destinations (domain <= 300 bytes of 1-/2-byte UTF-8, all IPv4/IPv6, all ports), incl. mandatory refusal of unrepresentable ones',
-    'C05': 'panic-site unreachability (MIR assert terminators, library preconditions, unwrap/expect, explicit panics) for every encodable peer-fed decoder: fragment reassembly, RPFM frames, stream frame reader, SOCKS-UDP, SOCKS request/reply readers',
+    'C05': 'panic-site unreachability (MIR assert terminators, library preconditions, unwrap/expect, explicit panics) for every encodable peer-fed decoder: fragment reassembly, RPFM frames, stream frame reader, SOCKS-UDP, SOCKS request/reply readers, the HTTP request / response head readers and the CONNECT target parser (string splitting over-approximated), the upstream HTTP proxy reply handling',
     'C06': 'trace properties of the dispatcher (established only after connect succeeded; one failure reply), reply bytes / codes of the SOCKS and HTTP callbacks, Content-Length == body, write-then-flush, SOCKS listener handshake branches',
     'C07': 'SOCKS method selection laws on the real handshake, AuthData::check truth table, "routed only after the check passed" on the listener handshake',
     'C11': 'functional laws of fragmentation/reassembly: one inductive step from any state satisfying the representation invariant, producer step law, timer, malformed/inconsistent headers',
